@@ -1603,6 +1603,19 @@ def arm_cases(tier):
 
 
 def sim_validate(run, prop, cases, chunk, key_fn, extra_props=()):
+    """both builds of the simulated emitters: with debug assertions and overflow checks (what `cargo test` builds) and without (what
+    a release build sees; every fourth case in the quick tier)"""
+    res = _sim_validate(run, prop, cases, chunk, key_fn, extra_props, nodebug=False)
+    if vlib.SIM_ND_OK:
+        sub = cases if run.tier == "thorough" else cases[::4]
+        g2, nev2, unk2 = _sim_validate(run, prop, sub, chunk, lambda fe: key_fn(fe) + " [built without debug assertions]", extra_props, nodebug=True)
+        run.extra.setdefault("sim_cases_without_debug_assertions", 0)
+        run.extra["sim_cases_without_debug_assertions"] += nev2
+        res = (res[0], res[1], res[2] + unk2)
+    return res
+
+
+def _sim_validate(run, prop, cases, chunk, key_fn, extra_props=(), nodebug=False):
     """run the cases through the simulated emitters and validate the Sim events with TLC; long case lists go through in
     batches (driver run + validation per batch) so that neither the recorded events nor the TLC processes of the whole list
     are in memory at once.  Returns the events of the first batch (for samples), the number of validated cases, unknown words"""
@@ -1616,7 +1629,7 @@ def sim_validate(run, prop, cases, chunk, key_fn, extra_props=()):
     first_groups = None
     for b0 in range(0, len(all_scen), BATCH):
         scen = all_scen[b0:b0 + BATCH]
-        groups, order, _ = vlib.run_harness("sim", scen, "sim_" + prop, timeout=3000)
+        groups, order, _ = vlib.run_harness("sim", scen, "sim_" + prop + ("_nd" if nodebug else ""), timeout=3000, nodebug=nodebug)
         if first_groups is None:
             first_groups = groups
         # parallel TLC processes over slices of the scenarios
@@ -1626,7 +1639,7 @@ def sim_validate(run, prop, cases, chunk, key_fn, extra_props=()):
         def one(k, slices=slices, groups=groups):
             sl = slices[k]
             return tlc.validate_traces("Trace_Sim", cfgp, [(sc["id"], groups.get(sc["id"], [])) for sc in sl], WORK,
-                                       "trace_sim_%s_%d" % (prop, k), timeout=3000)
+                                       "trace_sim_%s%s_%d" % (prop, "_nd" if nodebug else "", k), timeout=3000)
         with concurrent.futures.ThreadPoolExecutor(max_workers=nproc) as ex:
             results = list(ex.map(one, range(nproc)))
         for tv in results:
